@@ -25,6 +25,14 @@ def validate(path_or_bytes):
         if n.endswith('.xml') or n.endswith('.rels') or n.endswith('.vml'):
             try: trees[n]=ET.fromstring(z.read(n))
             except ET.ParseError as e: bad('ill-formed', '%s: %s'%(n,e))
+    # padded text must carry xml:space="preserve" (readers that honour the XML default would strip it)
+    XS='{http://www.w3.org/XML/1998/namespace}space'
+    for n,t in trees.items():
+        if n.startswith('xl/') and (n.endswith('sharedStrings.xml') or '/worksheets/' in n or '/comments' in n):
+            for el in t.iter(M+'t'):
+                tx=el.text or ''
+                if tx!=tx.strip(' \t\r\n') and el.get(XS)!='preserve':
+                    bad('text-space-not-preserved','%s: %r'%(n,tx[:40])); break
     # content types
     ct=trees.get('[Content_Types].xml')
     if ct is None: bad('no-content-types',''); return V
